@@ -102,6 +102,13 @@ def check(tier):
     inputs += [("edge", b""), ("edge", b"grammar"), ("edge", b"grammar g"), ("edge", b"grammar g;"), ("edge", b"\xef\xbb\xbfgrammar g;"), ("edge", b"\x00"),
                ("edge", b"grammar g; start = ;"), ("edge", b"grammar g; start = " + b"(" * 200 + b'"x"' + b")" * 200 + b";"),
                ("edge", b"grammar g; start = " + b'"x" ' * 120 + b";"), ("edge", b"grammar g; s = " + b"{" * 40 + b'"x"' + b"}" * 40 + b"; start = s;")]
+    # specifications that reach every production of the EBNF grammar in every context (rule handles with empty and non-empty
+    # bodies first / later in a directive, predefined tokens, empty rules, every bracket kind, optional semicolons)
+    from . import c11 as c11mod, c12 as c12mod
+    for t in c11mod.EDGE:
+        inputs.append(("coverage", t.encode("utf-8")))
+    for _ in range(30 if tier == "quick" else 400):
+        inputs.append(("coverage", c12mod.gen_spec(rng).encode("utf-8")))
     inputs.append(("edge", b'grammar g; start = "' + b"k" * 64 + b'";'))
     inputs.append(("edge", b'grammar g; start = c c; c = c "*";'))
     texts = []
@@ -143,7 +150,7 @@ def check(tier):
         rep.failure("hang", {"hang"}, {"entry_point": op, "input_text": t[:400], "input_length": len(t)})
 
     # ---- patterns ----
-    pats = list(PATTERNS) + list(R.EVERY_CONSTRUCT) + list(R.PROBLEM) + ["$", "^", "^$", "($)", "(^)", "a|$", "($)*", "(^a$)+", "a{0,0}", "(ab){0}x", "()*", "(|)"]
+    pats = list(PATTERNS) + list(R.EVERY_CONSTRUCT) + list(R.PROBLEM) + list(R.ALL_ESCAPES) + ["$", "^", "^$", "($)", "(^)", "a|$", "($)*", "(^a$)+", "a{0,0}", "(ab){0}x", "()*", "(|)"]
     pats += R.small_exhaustive() if tier != "quick" else R.small_exhaustive()[::4]
     docpats = [R.gen_tree(rng, rng.randint(1, 3)) for _ in range(150 if tier == "quick" else 3000)]
     pats += docpats + R.mutations(rng, docpats + list(R.EVERY_CONSTRUCT), 150 if tier == "quick" else 3000)
